@@ -48,7 +48,7 @@ type launchLine struct {
 type launched struct {
 	idx  int
 	cfg  LaunchCfg
-	conn net.Conn
+	conn *watchConn
 }
 
 func (l *launched) log(kind, tag string) {
@@ -65,6 +65,16 @@ func (l *launched) log(kind, tag string) {
 func (l *launched) enter(kind, tag string) error {
 	l.log(kind, tag)
 	ft := l.cfg.Fault
+	if ft.Then == "exit" && tag == mainTag {
+		// answers and exits ThenMs after the answer has been written out
+		d := time.Duration(ft.ThenMs) * time.Millisecond
+		l.conn.Arm(func() {
+			go func() {
+				time.Sleep(d)
+				os.Exit(0)
+			}()
+		})
+	}
 	if ft.Kind == "error" && (tag == mainTag || (tag == followTag && ft.Again)) {
 		err, _ := handlerError(ft)
 		return err
@@ -177,8 +187,8 @@ func LaunchedMain() {
 		os.Exit(92)
 	}
 	file.Close()
-	l := &launched{idx: idx, conn: conn}
-	st, err := stub.New(l, stub.WithConnection(conn), stub.WithOnClose(func() {}))
+	l := &launched{idx: idx, conn: &watchConn{Conn: conn}}
+	st, err := stub.New(l, stub.WithConnection(l.conn), stub.WithOnClose(func() {}))
 	if err != nil {
 		os.Exit(93)
 	}
